@@ -141,6 +141,25 @@ Definition lacks_permission (e : env) (p : perm_t) (r : req) (it : item) : Prop 
 Definition effects (out : list (item * item_out)) : list item :=
   map fst (filter (fun x => match snd x with Proceeds => true | _ => false end) out).
 
+(* Topics the handler may CREATE while serving the request (auto-creation through the
+   Metadata, Produce, Fetch and ListOffsets paths; CreateTopics). With
+   fixes/C24-fetch-autocreate-acl.patch the read paths (Fetch, ListOffsets) auto-create a
+   missing topic only for a principal that may also produce to it. *)
+Definition fetch_names (ts : list faddr) : list bytes :=
+  flat_map (fun a => match fetch_name a with Some n => [n] | None => [] end) ts.
+
+Definition creates (e : env) (p : perm_t) (r : req) : list bytes :=
+  let fresh := fun n => negb (topic_exists e n) in
+  match r with
+  | RMetadata ts => if auto_create e then filter (fun n => negb (blank e n) && fresh n && p AProduce RTopic n) ts else []
+  | RProduce ts => if auto_create e then filter (fun n => fresh n && p AProduce RTopic n) ts else []
+  | RFetch ts => if auto_create e then filter (fun n => fresh n && p AFetch RTopic n && p AProduce RTopic n) (fetch_names ts) else []
+  | RListOffsets ts =>
+      if auto_create e && forallb (p AFetch RTopic) ts then filter (fun n => fresh n && p AProduce RTopic n) ts else []
+  | RCreateTopics ts => if p AAdmin RCluster s_cluster && admin_apis e then ts else []
+  | _ => []
+  end.
+
 (* items for which record bytes may be returned: only Fetch items that proceed *)
 Definition data_items (r : req) (out : list (item * item_out)) : list item :=
   match r with RFetch _ => effects out | _ => [] end.
@@ -160,13 +179,14 @@ Definition expected_rows : list row := [
   ("DeleteTopics", [("allowAdmin", "reject"); ("allowAdminAPIs", "reject"); ("etcdAvailable", "reject")], "h.store.DeleteTopic");
   ("DescribeConfigs", [("allowTopic[resource.ResourceName]:ActionFetch", "skip")], "h.store.FetchTopicConfig");
   ("DescribeGroups", [("allowGroup[groupID]:ActionGroupRead", "filter"); ("acquireGroupLease", "filter"); ("etcdAvailable", "reject")], "h.coordinator.DescribeGroups");
-  ("Fetch", [("resolved[topicName]", "pre"); ("allowTopic[topicName]:ActionFetch", "skip"); ("s3Health.State:S3StateDegraded|S3StateUnavailable", "skip")], "h.getPartitionLog");
+  ("Fetch", [("resolved[topicName]", "pre"); ("allowTopic[topicName]:ActionFetch", "skip"); ("s3Health.State:S3StateDegraded|S3StateUnavailable", "skip");
+             ("allowTopic[topicName]:ActionProduce", "flag")], "h.partitionLog");
   ("FindCoordinator", [], "none");
   group_write_row "Heartbeat" "h.coordinator.Heartbeat";
   group_write_row "JoinGroup" "h.coordinator.JoinGroup";
   group_write_row "LeaveGroup" "h.coordinator.LeaveGroup";
   ("ListGroups", [("allowGroup[""*""]:ActionGroupRead", "reject"); ("etcdAvailable", "reject")], "h.coordinator.ListGroups");
-  ("ListOffsets", [("allowTopics[topicsFromListOffsets()]:ActionFetch", "reject")], "h.getPartitionLog");
+  ("ListOffsets", [("allowTopics[topicsFromListOffsets()]:ActionFetch", "reject"); ("allowTopic[topic.Topic]:ActionProduce", "flag")], "h.partitionLog");
   ("Metadata", [("allowTopic[name]:ActionProduce", "skip")], "h.ensureTopic");
   group_write_row "OffsetCommit" "h.coordinator.OffsetCommit";
   ("OffsetFetch", [("allowGroup[req.Group]:ActionGroupRead", "reject"); ("acquireGroupLease", "reject"); ("etcdAvailable", "reject")], "h.coordinator.OffsetFetch");
